@@ -25,6 +25,8 @@ ENGINES = [
     {"name": "Summaries*.tla", "path": "/verif/spec/SummariesMap.tla", "serves_properties": ["C11", "C12", "C16"], "kind_free_text": "SummariesMap (MAP / topology report scan), SummariesTable (result table rows), SummariesCons / SummariesCons4 (consensus)"},
     {"name": "Loader.tla", "path": "/verif/spec/Loader.tla", "serves_properties": ["C17"], "kind_free_text": "input tables as cell->rows functions: documented vs implementation-shaped filtering"},
     {"name": "Emission.tla", "path": "/verif/spec/Emission.tla", "serves_properties": ["C05"], "kind_free_text": "PyClone genotype enumeration and exact rational VAFs"},
+    {"name": "MoveRel.tla", "path": "/verif/spec/MoveRel.tla", "serves_properties": ["C04", "C07"], "kind_free_text": "the tree moves as relations on abstract forests (candidate sets of the data-point and prune-regraft moves, block structure of the subtree move); Moves.tla puts the weights on them"},
+    {"name": "TraceMoves.tla", "path": "/verif/spec/TraceMoves.tla", "serves_properties": ["C04", "C07"], "kind_free_text": "trace validation of recorded sampler steps of real chains (6-8 data points) against MoveRel with the chain's current tree carried along; total verdicts naming the failing clause"},
     {"name": "LossProb.tla", "path": "/verif/spec/LossProb.tla", "serves_properties": ["C05", "C17", "C18"], "kind_free_text": "cluster outlier/loss prior: option resolution of run(), cluster-table column, truncal cluster, lost-cluster test as the exact law of distinct chromosomes, prior terms"},
     {"name": "Chains.tla", "path": "/verif/spec/Chains.tla", "serves_properties": ["C18"], "kind_free_text": "multi-chain scheduler: spawned streams, interleavings, completion orders"},
     {"name": "TraceFile.tla", "path": "/verif/spec/TraceFile.tla", "serves_properties": ["C20"], "kind_free_text": "streamed single write with crash after any prefix; reader all-or-error"},
@@ -234,7 +236,10 @@ CHECKS = {
                 "specified; the deviations (lone outlier never moved, degree-weighted regraft, stuck on all-outlier tree) are refuted. The real "
                 "DataPointSampler, PruneRegraphSampler and ParticleGibbsSubtreeSampler are run from every start forest with every RNG outcome "
                 "enumerated (run wiring and library wiring, TLC's tables and the real density) and max|pi K - pi| <= 1e-10 is required. The "
-                "subtree move on >=3 points is a listed open finding (TLC refutes even the ideal version); its behaviour is pinned by a fingerprint.",
+                "subtree move on >=3 points is a listed open finding (TLC refutes even the ideal version); its behaviour is pinned by a fingerprint. "
+                "The move relations themselves (MoveRel.tla, shared with Moves.tla; SameRelationInv ties the enumeration-free membership tests to the "
+                "candidate sets) are bound beyond these sizes: recorded steps of real chains on 6-8 clustered data points (hundreds of tree-changing "
+                "reassignments, regrafts and subtree updates) are validated by TLC against TraceMoves.tla (diagnostic: MODEL-DRIFT).",
         "note": "Trusted: TLC, EnumRNG, projection. Bounded to n<=3 (quick) / n<=4 DP,PRG and n<=3 subtree (thorough).",
     },
     "C05": {
